@@ -2,7 +2,7 @@
 SonarEntries == << [status |-> "OPEN", hasRange |-> TRUE, rule |-> "r1", file |-> "f1"], [status |-> "RESOLVED", hasRange |-> TRUE, rule |-> "r1", file |-> "f1"] >>
 SonarExtraLists == { <<1, 2>> }
 SonarFilePool == << << <<"list", <<1>> >>, <<"absent", <<>> >> >>, << <<"absent", <<>> >>, <<"list", <<1>> >> >> >>
-SarifEntries == << [rule |-> "r1", file |-> "f1", viaIndex |-> FALSE] >>
+SarifEntries == << [rule |-> "r1", file |-> "f1", viaIndex |-> FALSE, also |-> "none"], [rule |-> "r1", file |-> "f2", viaIndex |-> FALSE, also |-> "otherfile"] >>
 SarifDocs == { << <<"semgrep", <<1>> >>, <<"codeql", <<1>> >> >> }
 DojoEntries == << [rule |-> "r1", file |-> "f1"] >>
 DojoFilePool == << <<1>>, <<>> >>
